@@ -8,13 +8,16 @@ CFG = {
     "check_vo": "theories/Check/C05.vo", "prop_vo": "theories/Properties/C05.vo",
     "prop_file": "theories/Properties/C05.v",
     "theory_files": ["theories/Base/Bytes.v", "theories/Formats/Obj.v", "theories/Formats/ObjProofs.v",
-                     "theories/Formats/ObjText.v", "theories/Formats/ObjTextProofs.v"],
+                     "theories/Formats/ObjText.v", "theories/Formats/ObjTextProofs.v",
+                     "theories/Formats/ObjFiles.v", "theories/Formats/ObjFilesProofs.v"],
     "level_text": "Coq theorems about a line-record model of obj.WriteMeshes and obj.ReadMesh and a direct "
                   "(de-duplication-free) semantics of OBJ line lists: write/read round trip for every list of "
                   "well-formed meshes in any attribute / material-range mixture, reader correctness and load/save "
                   "face preservation for every valid line list; the model is tied to the Go code on every run by "
                   "evaluating it (vm_compute) on the implementation's inputs and outputs, and the implementation's "
-                  "output is judged by the direct semantics",
+                  "output is judged by the direct semantics; the same two clauses over bytes (text layer: ScanLines, "
+                  "Fields, keyword dispatch, corner tokens; no partial theorem left) and through the file system "
+                  "(obj.Save / SaveAll / Load with .mtl libraries: material names resolved by name, nil when undefined)",
     "level_note": "Trusted: Coq kernel + vm_compute; hand-written model tied by differential correspondence only "
                   "(generator quality bounds it); number text (strconv formatting/parsing, float32 rounding) is a "
                   "parameter of the Coq text layer (Formats/ObjText.v models ScanLines, Fields, keyword dispatch, corner "
@@ -32,18 +35,33 @@ CFG = {
             "faces, 1/14 invalid index (0, out of range, negative), short v/vt/vn line or bare usemtl; text layer: "
             "last statement of every kind ended by LF / CRLF / lone CR / nothing, LF-CRLF mixes, leading and "
             "trailing blanks, blank and comment lines anywhere, 65535-byte line, UTF-8 BOM, 117 fixed endings) through "
-            "ReadMesh -> WriteMeshes -> ReadMesh; stream 3 (1/16): obj.Save -> obj.Load through the file system; "
-            "distinct by input; non-trivial = at least one triangle and the first operation succeeded",
+            "ReadMesh -> WriteMeshes -> ReadMesh; stream 3 (1/16): obj.Save -> obj.Load through the file system, and "
+            "(N/16) obj.SaveAll of 1-4 named meshes -> obj.Load (groups matched by name: map order); stream 4 (N/8 + 8 "
+            "fixed): OBJ text from the grammar plus hand-written .mtl files (0-3 libraries on one or several mtllib "
+            "lines, before / after the faces, each defining a random part of the used names in any order, CRLF, "
+            "comments, unknown statements, last newmtl unterminated, 1/12 library missing) -> obj.Load -> obj.Save "
+            "(one group) or obj.SaveAll (distinct names) into a new directory tree -> obj.Load; materials reused "
+            "around another one (red:2 green:1 red:3, nil included) at 1/5 of the meshes; per run one written scene "
+            "(3 meshes, ~1500 faces, 3-digit indices, 75-90 KiB) and one OBJ text of 140-220 KiB (g / usemtl lines "
+            "before every scanner refill); distinct by input; non-trivial = at least one triangle and the first "
+            "operation succeeded",
     "trusted": ["strconv.AppendFloat(…,'f',-1,64) followed by ParseFloat(…,32) yields float32(x) (false only at "
                 "exact float32 midpoints; generators do not produce them)",
-                "strings.Fields / bufio.Scanner line splitting is reproduced by the harness tokenizer, not modelled "
-                "(lines longer than bufio.MaxScanTokenSize are not generated)",
+                "strings.Fields / bufio.ScanLines are modelled in Coq on ASCII white space (Formats/ObjText.v) and "
+                "reproduced by the harness tokenizer; texts up to 2500 bytes are evaluated in Coq from their bytes, "
+                "larger ones (incl. lines over 64 KiB and texts over several scanner buffers) as line records",
+                "a .mtl file is the list of its newmtl names (colours, textures, Ns are outside the property and not "
+                "compared); the harness finds them with its own line/field splitter",
                 "the comparison model <-> implementation is on observables (validity + direct meaning of a text, "
                 "group observations + well-formedness of a read result), not on vertex numbering or line order"],
     "modelled": ["obj.WriteMeshes, obj.WriteMesh (line records, v/vt/vn offsets, g rule, material ranges)",
                  "obj.ReadMesh (tables, per-group corner table keyed by token text, material range counting, only the "
                  "first three corners of an f line, index 0 = absent for vt/vn, error classes Declared / Crash)",
-                 "obj.Save/obj.Load only through the same observation (material names resolved through the .mtl file)"],
+                 "obj.Load / obj.Save / obj.SaveAll (Formats/ObjFiles.v: mtllib names opened next to the .obj, missing "
+                 "file = declared error, loadedMaterials[name] or nil per range; .mtl written iff some mesh has ranges, "
+                 "one newmtl per written name); ReadMaterials / WriteMaterials only as the names they define",
+                 "text layer on bytes (Formats/ObjText.v): ScanLines, TrimSpace/Fields, keyword dispatch, "
+                 "parseObjFaceComponent shapes, what WriteMeshes prints"],
 }
 
 
